@@ -182,3 +182,235 @@ Example C17_nonvacuous_smooth :
   forallb (fun e => Qle_bool (Qabs (phase_of 1 [0; 2; 4; 1; 3; 5]%Z (fst e) - phase_of 1 [0; 2; 4; 1; 3; 5]%Z (snd e))) 3) ps = true /\
   option_map (map Qred) (unwrap_raw 3 6 (phase_of 1 [0; 2; 4; 1; 3; 5]%Z) ps) = Some [0; 2; 4; 1; 3; 5]%Q.
 Proof. cbv zeta. split; vm_compute; reflexivity. Qed.
+
+(* ======================================================================================
+   Round 3: the reliability computation and the edge sort as an explicit permutation, the
+   driver in the code's own order, congruence per component, the grid edges spelled out, and
+   the masked embedding of unwrap_bf_overlap_phase_torch (model/C17_Model_Ext.v,
+   proof/C17_Proofs_Ext.v, proof/C17_Proofs_BF.v)
+   ====================================================================================== *)
+From QV.model Require Import C17_Model_Ext.
+From QV.proof Require Import C17_Proofs_Ext C17_Proofs_BF.
+From Coq Require Import Sorted.
+
+(* `order = rel.argsort()` then `i1[order], i2[order], inc[order]`: whatever the keys are, the
+   sorted list is a permutation of its input and its keys ascend *)
+Theorem C17_sort_permutation :
+  forall (A : Type) (key : A -> Q) (l : list A),
+    Permutation (sort_by key l) l /\
+    Sorted Qle (map fst (isort_kv (map (fun a => (key a, a)) l))) /\
+    map fst (isort_kv (map (fun a => (key a, a)) l)) = map key (sort_by key l).
+Proof. exact sort_permutation_full. Qed.
+Print Assumptions C17_sort_permutation.
+
+(* the order in which the driver feeds the union-find (edges sorted by rel[i1] + rel[i2], rel =
+   _pixel_reliability) is a permutation of the grid edges, with ascending keys *)
+Theorem C17_code_order :
+  forall (P : Q) (H W : nat) (wrap : bool) (mask : nat -> bool) (phi : nat -> Q),
+    Permutation (code_order P H W wrap mask phi) (grid_pairs H W wrap mask) /\
+    Sorted Qle (code_keys P H W wrap mask phi) /\
+    code_keys P H W wrap mask phi
+    = map (edge_key (rel_list P H W phi)) (code_order P H W wrap mask phi).
+Proof. exact code_order_full. Qed.
+Print Assumptions C17_code_order.
+
+(* MAIN, for the code's own order: reliability -> sort -> union-find -> output recovers every
+   smooth field up to one constant per connected component of the mask *)
+Theorem C17_unwrap_code_correct :
+  forall (P : Q) (H W : nat) (wrap : bool) (mask : nat -> bool) (phi phiw : nat -> Q) (K : nat -> Z),
+    (0 < P)%Q ->
+    (forall x y, In (x, y) (grid_pairs H W wrap mask) -> (Qabs (phi x - phi y) < P)%Q) ->
+    (forall x, (phiw x == phi x - 2 * P * inject_Z (K x))%Q) ->
+    (forall x y, In (x, y) (grid_pairs H W wrap mask) -> (Qabs (phiw x - phiw y) < 2 * P)%Q) ->
+    exists (out : list Q) (c : nat -> Q),
+      unwrap_code P H W wrap mask phiw = Some out /\ length out = H * W /\
+      (forall x y, conn (prel (grid_pairs H W wrap mask)) x y -> (c x == c y)%Q) /\
+      (forall x, x < H * W -> (nth x out 0%Q == phi x + c x)%Q).
+Proof. exact unwrap_code_correct. Qed.
+Print Assumptions C17_unwrap_code_correct.
+
+Theorem C17_unwrap_code_congruent :
+  forall (P : Q) (H W : nat) (wrap : bool) (mask : nat -> bool) (phiw : nat -> Q),
+    exists (out : list Q) (c0 : Q),
+      unwrap_code P H W wrap mask phiw = Some out /\ length out = H * W /\
+      forall x, x < H * W -> exists k : Z, (nth x out 0%Q - phiw x == 2 * P * inject_Z k + c0)%Q.
+Proof. exact unwrap_code_congruent. Qed.
+Print Assumptions C17_unwrap_code_congruent.
+
+Theorem C17_unwrap_code_smooth_unchanged :
+  forall (P : Q) (H W : nat) (wrap : bool) (mask : nat -> bool) (phi : nat -> Q),
+    (forall x y, In (x, y) (grid_pairs H W wrap mask) -> (Qabs (phi x - phi y) <= P)%Q) ->
+    exists (out : list Q) (c0 : Q),
+      unwrap_code P H W wrap mask phi = Some out /\ length out = H * W /\
+      forall x, x < H * W -> (nth x out 0%Q == phi x + c0)%Q.
+Proof. exact unwrap_code_smooth_unchanged. Qed.
+Print Assumptions C17_unwrap_code_smooth_unchanged.
+
+(* ANY input, several components: out = phiw + 2P * pot + ONE constant; each component has a
+   pixel with multiple 0; inside a component the multiples differ by the signed sum of the
+   _find_wrap increments along a walk through the graph *)
+Theorem C17_unwrap_congruent_components :
+  forall (P : Q) (n : nat) (ps : list (nat * nat)) (phiw : nat -> Q),
+    prange n ps ->
+    exists (out : list Q) (pot : nat -> Z) (c0 : Q),
+      unwrap P n phiw ps = Some out /\ length out = n /\
+      (forall x, x < n -> (nth x out 0%Q == phiw x + 2 * P * inject_Z (pot x) + c0)%Q) /\
+      (forall x, exists r, conn (prel ps) x r /\ pot r = 0%Z) /\
+      (forall x y, conn (prel ps) x y ->
+         exists s, walk (incs_of P phiw ps) x y s /\ (pot x - pot y)%Z = s).
+Proof. exact unwrap_congruent_components_full. Qed.
+Print Assumptions C17_unwrap_congruent_components.
+
+(* pixels no edge touches (outside the mask, single-pixel components) keep their input value
+   up to the global constant *)
+Theorem C17_unwrap_isolated_pixel :
+  forall (P : Q) (n : nat) (ps : list (nat * nat)) (phiw : nat -> Q),
+    prange n ps ->
+    exists (out : list Q) (c0 : Q),
+      unwrap P n phiw ps = Some out /\
+      forall x, x < n -> (forall y, ~ In (x, y) ps /\ ~ In (y, x) ps) ->
+                (nth x out 0%Q == phiw x + c0)%Q.
+Proof. exact unwrap_isolated_pixel_full. Qed.
+Print Assumptions C17_unwrap_isolated_pixel.
+
+(* what "connected region of the mask" means: the edges are exactly the right / lower
+   4-neighbour pairs with both ends in the mask (modulo the grid size when wrap_around) *)
+Theorem C17_grid_edges :
+  forall (H W : nat) (mask : nat -> bool) (x y : nat),
+    (In (x, y) (grid_pairs H W false mask) <->
+     x < H * W /\ mask x = true /\ mask y = true /\
+     ((y = x + 1 /\ x mod W + 1 < W) \/ (y = x + W /\ x / W + 1 < H))) /\
+    (In (x, y) (grid_pairs H W true mask) <->
+     x < H * W /\ mask x = true /\ mask y = true /\
+     (y = (x / W) * W + (x mod W + 1) mod W \/ y = ((x / W + 1) mod H) * W + x mod W)).
+Proof. exact grid_edges_full. Qed.
+Print Assumptions C17_grid_edges.
+
+(* masked embedding (unwrap_bf_overlap_phase_torch): the bright-field samples `ang` (angles in
+   (-P, P] of a field that is smooth across the edges of the embedded mask) are embedded into the
+   H x W grid, unwrapped (guard `max - min > P`, first pass on phase * mask, optional second
+   pass), and read back.  The result is the field plus one constant per connected component of
+   the embedded mask; any per-pass processing order that is a permutation of the grid edges *)
+Theorem C17_bf_correct :
+  forall (P : Q) (H W : nat) (wrap : bool)
+         (ord : nat -> (nat -> bool) -> (nat -> Q) -> list (nat * nat))
+         (bf : list bool) (ang : list Q) (mask_bf : list bool) (two_pass : bool)
+         (phi : nat -> Q) (K : nat -> Z),
+    let pg := embed bf ang 0%Q in
+    let mask := mask_of (embed bf mask_bf false) in
+    let gp := grid_pairs H W wrap mask in
+    (0 < P)%Q -> length bf = H * W ->
+    (forall pass m f, Permutation (ord pass m f) (grid_pairs H W wrap m)) ->
+    (forall x y, In (x, y) gp -> (Qabs (phi x - phi y) < P)%Q) ->
+    (forall x, mask x = true -> (lfun pg x == phi x - 2 * P * inject_Z (K x))%Q) ->
+    (forall x, mask x = true -> (- P < lfun pg x /\ lfun pg x <= P)%Q) ->
+    exists (G : list Q) (c : nat -> Q),
+      bf_grid P H W wrap ord bf ang mask_bf two_pass = Some G /\
+      bf_unwrap P H W wrap ord bf ang mask_bf two_pass = Some (extract bf G) /\
+      length G = H * W /\
+      (forall x y, conn (prel gp) x y -> (c x == c y)%Q) /\
+      (forall x, mask x = true -> (nth x G 0%Q == phi x + c x)%Q).
+Proof. exact bf_correct_full. Qed.
+Print Assumptions C17_bf_correct.
+
+(* ... and for ANY samples the result differs from them by multiples of 2P plus one constant
+   on the embedded mask *)
+Theorem C17_bf_congruent :
+  forall (P : Q) (H W : nat) (wrap : bool)
+         (ord : nat -> (nat -> bool) -> (nat -> Q) -> list (nat * nat))
+         (bf : list bool) (ang : list Q) (mask_bf : list bool) (two_pass : bool),
+    let pg := embed bf ang 0%Q in
+    let mask := mask_of (embed bf mask_bf false) in
+    length bf = H * W ->
+    (forall pass m f, Permutation (ord pass m f) (grid_pairs H W wrap m)) ->
+    exists (G : list Q) (c0 : Q),
+      bf_grid P H W wrap ord bf ang mask_bf two_pass = Some G /\ length G = H * W /\
+      forall x, mask x = true ->
+                exists k : Z, (nth x G 0%Q - lfun pg x == 2 * P * inject_Z k + c0)%Q.
+Proof. exact bf_congruent_full. Qed.
+Print Assumptions C17_bf_congruent.
+
+(* the code's own order (reliability sort in each pass) is such an order; embedding then reading
+   back is the identity on the samples; grids related on the bright-field pixels give related
+   sample lists *)
+Theorem C17_bf_embedding :
+  (forall P H W wrap pass m f,
+     Permutation (bf_code_ord P H W wrap pass m f) (grid_pairs H W wrap m)) /\
+  (forall (A : Type) (bf : list bool) (vals : list A) (d : A),
+     length vals = count_true bf -> extract bf (embed bf vals d) = vals) /\
+  (forall (A B : Type) (R : A -> B -> Prop) (bf : list bool) (g1 : list A) (g2 : list B) d1 d2,
+     length g1 = length bf -> length g2 = length bf ->
+     (forall x, nth x bf false = true -> R (nth x g1 d1) (nth x g2 d2)) ->
+     Forall2 R (extract bf g1) (extract bf g2)).
+Proof. exact bf_embedding_full. Qed.
+Print Assumptions C17_bf_embedding.
+
+(* ---------------------------------------------------------------- non-vacuity (round 3) *)
+(* the sort is stable and really reorders *)
+Example C17_nonvacuous_sort :
+  sort_by (fun p : Z * Z => inject_Z (fst p)) [(3, 0); (1, 1); (2, 2); (1, 3); (0, 4); (3, 5)]%Z
+  = [(0, 4); (1, 1); (1, 3); (2, 2); (3, 0); (3, 5)]%Z.
+Proof. vm_compute. reflexivity. Qed.
+
+(* 3 x 3 bounded grid, P = 3, wrapped ramp 2*col + row: the reliabilities are 0 in the middle
+   row and 27 elsewhere (the rolls wrap around the border), the sorted order starts with the
+   middle row and differs from the construction order; the driver in that order returns the ramp *)
+Definition C17_ex3 : nat -> Q := phase_of 1 [0; 2; -2;  1; 3; -1;  2; -2; 0]%Z.
+Example C17_nonvacuous_code_order :
+  map Qred (rel_list 3 3 3 C17_ex3) = [27; 27; 27; 0; 0; 0; 27; 27; 27]%Q /\
+  zpairs (grid_pairs 3 3 false (fun _ => true))
+  = [(0, 1); (1, 2); (3, 4); (4, 5); (6, 7); (7, 8); (0, 3); (1, 4); (2, 5); (3, 6); (4, 7); (5, 8)]%Z /\
+  zpairs (code_order 3 3 3 false (fun _ => true) C17_ex3)
+  = [(3, 4); (4, 5); (0, 3); (1, 4); (2, 5); (3, 6); (4, 7); (5, 8); (0, 1); (1, 2); (6, 7); (7, 8)]%Z /\
+  map Qred (code_keys 3 3 3 false (fun _ => true) C17_ex3) = [0; 0; 27; 27; 27; 27; 27; 27; 54; 54; 54; 54]%Q /\
+  option_map (map Qred) (unwrap_raw 3 9 C17_ex3 (code_order 3 3 3 false (fun _ => true) C17_ex3))
+  = Some [0; 2; 4; 1; 3; 5; 2; 4; 6]%Q /\
+  option_map (map Qred) (unwrap_code 3 3 3 false (fun _ => true) C17_ex3)
+  = Some [-3; -1; 1; -2; 0; 2; -1; 1; 3]%Q.
+Proof. repeat split; vm_compute; reflexivity. Qed.
+
+(* two components and a masked-out pixel (the example of C17_nonvacuous_unwrap): the ring gets
+   multiples relative to its root, the strip relative to its own root, pixel 3 (outside the
+   mask) keeps multiple 0 *)
+Example C17_nonvacuous_components :
+  let ps := grid_pairs 3 5 false C17_ex_mask in
+  uf_offsets 15 (incs_of 3 (fun x => wrapP 3 (C17_ex_phi x)) ps)
+  = Some [0; 0; 1; 0; 0;  0; 0; 1; 0; 1;  0; 1; 1; 0; 1]%Z /\
+  (forall y, y < 15 -> ~ In (3, y) ps /\ ~ In (y, 3) ps).
+Proof.
+  cbv zeta. split; [vm_compute; reflexivity|].
+  intros y Hy. split; intros Hin; vm_compute in Hin;
+    repeat (destruct Hin as [Hin|Hin]; [inversion Hin; subst; lia|]); contradiction.
+Qed.
+
+(* masked embedding on a 3 x 4 grid: bright field = all pixels but two corners, one more sample
+   excluded by mask_bf; field 2*col + row + 1/2, P = 3.  The hypotheses of C17_bf_correct
+   hold and the unwrapping branch is taken; result = field - 431/96 on the mask *)
+Definition C17_bf_bf := [false; true; true; true;  true; true; true; true;  true; true; true; false].
+Definition C17_bf_phi : list Q := [5 # 2; 9 # 2; 13 # 2;  3 # 2; 7 # 2; 11 # 2; 15 # 2;  5 # 2; 9 # 2; 13 # 2]%Q.
+Definition C17_bf_ang : list Q := map (wrapP 3) C17_bf_phi.
+Definition C17_bf_mask := [true; true; true;  true; true; false; true;  true; true; true].
+Example C17_nonvacuous_bf :
+  let mask := mask_of (embed C17_bf_bf C17_bf_mask false) in
+  let phi := lfun (embed C17_bf_bf C17_bf_phi 0%Q) in
+  let pg := embed C17_bf_bf C17_bf_ang 0%Q in
+  length C17_bf_bf = 3 * 4 /\
+  forallb (fun e => Qltb (Qabs (phi (fst e) - phi (snd e))) 3) (grid_pairs 3 4 false mask) = true /\
+  forallb (fun x => negb (mask x) || (Qltb (-3) (lfun pg x) && Qle_bool (lfun pg x) 3)) (seq 0 12) = true /\
+  forallb (fun x => negb (mask x) ||
+                    Qeq_bool (lfun pg x) (phi x - 2 * 3 * inject_Z (wrapK 3 (phi x)))) (seq 0 12) = true /\
+  bf_branch 3 C17_bf_bf C17_bf_ang C17_bf_mask = 2%Z /\
+  option_map (map Qred)
+    (bf_unwrap 3 3 4 false (bf_code_ord 3 3 4 false) C17_bf_bf C17_bf_ang C17_bf_mask true)
+  = Some [-191 # 96; 1 # 96; 193 # 96;  -287 # 96; -95 # 96; 0; 289 # 96;  -191 # 96; 1 # 96; 193 # 96]%Q /\
+  ((5 # 2) - (431 # 96) == -191 # 96)%Q /\ ((15 # 2) - (431 # 96) == 289 # 96)%Q.
+Proof. cbv zeta. repeat split; vm_compute; reflexivity. Qed.
+
+(* the union-find state after every union of C17_nonvacuous_uf (per-step observable) *)
+Example C17_nonvacuous_trace :
+  uf_trace 4 (el [(0, 1, 1); (2, 3, -1); (1, 2, 0); (3, 0, 5)]%Z)
+  = [Some ([0; 0; 2; 3], [1; 0; 0; 0], [0; -1; 0; 0]);
+     Some ([0; 0; 2; 2], [1; 0; 1; 0], [0; -1; 0; 1]);
+     Some ([0; 0; 0; 2], [2; 0; 1; 0], [0; -1; -1; 1]);
+     Some ([0; 0; 0; 2], [2; 0; 1; 0], [0; -1; -1; 1])]%Z.
+Proof. vm_compute. reflexivity. Qed.
